@@ -205,6 +205,7 @@ fn main() {
         let s = C08 { cfgs, max_epoch: if thorough { 10 } else { 7 }, max_adv: if thorough { 2 } else { 1 } };
         let mut o = Opts::new(tier, if thorough { 13 } else { 9 });
         o.min_depth = 4;
+        o.xcheck = tier == "thorough";
         o.rule = "retention in {0,1,2,3,7,u64::MAX} x 1-3 initial sets; all rotation histories where each rotation is authorised by ANY installed set, with and without operator bypass, plus bounded ledger advancement; explored to fixpoint up to epoch 7 (quick) / 10 (thorough). In every reached state, for EVERY installed set: validate_proof, approve_messages of a fresh id, non-bypass rotation and bypass rotation are executed on a snapshot and compared with `epoch - e <= retention` (non-bypass rotation: e == epoch)".into();
         (s, o)
     });
